@@ -124,6 +124,13 @@ class SliceView:
         return self.base.get(self.lo + i)
 
 
+class ASet:
+    """set(<abstract list>): membership is `==` with some element of the list (A-STDLIB: Python sets compare by ==/hash, hash consistent with ==)"""
+
+    def __init__(self, lst):
+        self.lst = lst
+
+
 class ConcatView:
     """a + b of abstract lists, not materialised"""
 
